@@ -209,6 +209,8 @@ Proof. intros [Hdv Hlen Hfl Hup Hcv].
     rewrite Vu in *. constructor; rewrite ?Fo, ?Fs, ?Fd, ?Fu, ?Fn; auto. Qed.
 
 (* ------------------------------------------------------------------ the whole state *)
+Section Cfg.
+Variable fx : bool.
 Lemma nth_error_map' {A B} (f : A -> B) (l : list A) : forall j, nth_error (map f l) j = option_map f (nth_error l j).
 Proof. induction l; destruct j; simpl; auto. Qed.
 Lemma nth_error_upd_nth {A} (f : A -> A) (l : list A) : forall i j,
@@ -242,7 +244,7 @@ Lemma xmach_env (s : St) E' j : xmach (mkSt E' (s_trees s) (s_machs s)) j = xmac
 
 Ltac xs_keep := split; [assumption|]; split; [assumption|]; split; [assumption|].
 Lemma step_XS (s : St) j o src init G (op : Op) : XS s j o src init G -> x_allowed j op ->
-  XS (fst (step ROps s op)) j o src init (ghost_step s j op G).
+  XS (fst (step ROps fx s op)) j o src init (ghost_step s j op G).
 Proof. intros (W & x & Hx & Ho & Hs & HI) Al.
   assert (Nx : nth_error (s_machs s) j = Some (MX x)).
   { unfold xmach in Hx. destruct (nth_error (s_machs s) j) as [[x'|d|f]|]; try discriminate. congruence. }
@@ -308,7 +310,7 @@ Proof. intros (W & x & Hx & Ho & Hs & HI) Al.
       replace (j' =? j) with false by (symmetry; apply Nat.eqb_neq; auto). rewrite Nx. reflexivity. Qed.
 
 Lemma step_X_obs (s : St) j o src init G : XS s j o src init G -> vdep src <= e_stage (s_env s) ->
-  snd (step ROps s (GetM j)) = OVal (vfold o init (G ++ [veval ROps src (e_t (s_env s))])).
+  snd (step ROps fx s (GetM j)) = OVal (vfold o init (G ++ [veval ROps src (e_t (s_env s))])).
 Proof. intros (W & x & Hx & Ho & Hs & HI) Gd.
   assert (Nx : nth_error (s_machs s) j = Some (MX x)).
   { unfold xmach in Hx. destruct (nth_error (s_machs s) j) as [[x'|d|f]|]; try discriminate. congruence. }
@@ -330,8 +332,8 @@ Fixpoint x_run_ok (s : St) j o src init (G : list Vec) (ops : list Op) : Prop :=
   | [] => True
   | op :: r =>
       (op = GetM j -> vdep src <= e_stage (s_env s) ->
-       snd (step ROps s op) = OVal (vfold o init (G ++ [veval ROps src (e_t (s_env s))]))) /\
-      x_run_ok (fst (step ROps s op)) j o src init (ghost_step s j op G) r
+       snd (step ROps fx s op) = OVal (vfold o init (G ++ [veval ROps src (e_t (s_env s))]))) /\
+      x_run_ok (fst (step ROps fx s op)) j o src init (ghost_step s j op G) r
   end.
 
 Lemma extreme_is_fold (s : St) j o src init G (ops : list Op) :
@@ -357,16 +359,35 @@ Proof. intros N L. split; [reflexivity|]. exists (mk_ext o src init). split; [un
   - intros F. destruct (NF _ _ F). Qed.
 
 (** Extreme::setValue (and the initialization event, which calls it with the current operand value) restarts the history
-    -- provided the measure has not been evaluated in the current state (its isNewExtreme entry is not current) *)
+    -- in the code as it is ([fx = false]) only provided the measure has not been evaluated in the current state (its
+    isNewExtreme entry is not current); with the proposed repair ([fx = true]) always *)
 Lemma XI_x_set (E : Env) x init G v : env_wf E -> XI E x init G ->
-  ~ fresh (inval E 7) (vdep (x_src x)) (x_newupd x) -> length v = length (x_src x) ->
-  XI (inval E 7) (x_set (inval E 7) x v) v [].
+  (fx = false -> ~ fresh (inval E 7) (vdep (x_src x)) (x_newupd x)) -> length v = length (x_src x) ->
+  XI (inval E 7) (x_set fx (inval E 7) x v) v [].
 Proof. intros W H NF L.
   assert (H' : XI (inval E 7) x init G) by (eapply (XI_after E); [exact W | apply env_after_inval | exact H]).
   destruct H' as [Hdv Hlen Hfl Hup Hcv]. constructor; cbn [x_set x_dv x_op x_src x_upd x_newupd]; auto.
-  - destruct Hfl as [A B]. split; auto. intros F. destruct (NF F).
+  - destruct fx.
+    + split; [simpl; discriminate|]. intros [_ O]. simpl in O. discriminate.
+    + destruct Hfl as [A B]. split; auto. intros F. destruct (NF eq_refl F).
   - split; [simpl; discriminate|]. intros [_ O]. simpl in O. discriminate.
-  - intros F. destruct (NF F). Qed.
+  - destruct fx; intros F; [destruct F as [_ O]; simpl in O; discriminate | destruct (NF eq_refl F)]. Qed.
+
+End Cfg.
+
+(** with the repair of patches/C23_extreme_setvalue.diff ([fx = true]) Extreme::setValue is admissible in every state: it
+    restarts the history with the given value *)
+Lemma setvalue_restarts_history_when_repaired (s : St) j o src init G v :
+  XS s j o src init G -> length v = length src ->
+  XS (fst (step ROps true s (SetExt j v))) j o src v [].
+Proof. intros (W & x & Hx & Ho & Hs & HI) L.
+  assert (Nx : nth_error (s_machs s) j = Some (MX x)).
+  { unfold xmach in Hx. destruct (nth_error (s_machs s) j) as [[x'|d|f]|]; try discriminate. congruence. }
+  cbv beta iota zeta delta [step]. rewrite Nx. cbn [fst s_env].
+  split; [apply inval_wf; auto|]. exists (x_set true (inval (s_env s) 7) x v). split.
+  { unfold xmach. cbn [s_machs]. rewrite nth_error_upd_nth, Nat.eqb_refl, Nx. reflexivity. }
+  split; [exact Ho|]. split; [exact Hs|].
+  apply (XI_x_set true (s_env s) x init G v); auto; [discriminate | congruence]. Qed.
 
 (* ------------------------------------------------------------------ what the fold is *)
 Local Open Scope R_scope.
@@ -432,7 +453,7 @@ Example extreme_is_fold_example :
   let s := mkSt (env0 1 []) [] [MX (mk_ext Maximum [PTime] [0])] in
   let ops := [Realize 8; AutoUpd; SetTime (1/2); Realize 8; GetM 0] in
   XS s 0%nat Maximum [PTime] [0] [] /\ Forall (x_allowed 0) ops /\
-  nth_error (snd (run ROps s ops)) 4 = Some (OVal [1]).
+  nth_error (snd (run ROps false s ops)) 4 = Some (OVal [1]).
 Proof. intros s ops. split; [apply XS_init; reflexivity|]. split; [repeat constructor|].
   unfold s, ops. rcbv. rl_true 0 1. rcbv. rl_false 1 (1/2). rcbv. reflexivity. Qed.
 
@@ -440,9 +461,9 @@ Proof. intros s ops. split; [apply XS_init; reflexivity|]. split; [repeat constr
     throw (flag true) or ignore the current operand value (flag false) -- known finding extreme-setvalue-keeps-stale-new-extreme-flag *)
 Lemma extreme_setvalue_refuted :
   (exists (s : St) (ops : list Op), XS s 0%nat Maximum [PTime] [0] [] /\
-     nth_error (snd (run ROps s ops)) 3 = Some OThrow) /\
+     nth_error (snd (run ROps false s ops)) 3 = Some OThrow) /\
   (exists (s : St) (ops : list Op), XS s 0%nat Maximum [PTime] [10] [] /\
-     nth_error (snd (run ROps s ops)) 3 = Some (OVal [-5]) /\ vfold Maximum [-5] [[1]] = [1]).
+     nth_error (snd (run ROps false s ops)) 3 = Some (OVal [-5]) /\ vfold Maximum [-5] [[1]] = [1]).
 Proof. split.
   - exists (mkSt (env0 1 []) [] [MX (mk_ext Maximum [PTime] [0])]).
     exists ([Realize 8; SetExt 0 [10]; Realize 8; GetM 0]).
